@@ -154,8 +154,36 @@ def run(ctx, tier):
                     src = P.iter_source(T(n))
                     if src is not None and all(c[0] == 'field' and c[2] == 'subspaces' for c in src):
                         I = 'iter'
+                elif n[0] == 'field' and n[2] == '0' and len(n[1]) == 1 and next(iter(n[1]))[0] == 'unwrap':
+                    # `for (subspace, comp) in self.subspaces.iter().zip(state.components.iter[_mut]())`
+                    src = P.iter_source(n[1])
+                    if src is not None and len(src) == 1:
+                        z = next(iter(src))
+                        if z[0] == 'call' and z[1] == 'std::iter::Iterator::zip' and len(z[2]) == 2:
+                            def _base(ts):
+                                ts2 = ts
+                                for _ in range(4):
+                                    if len(ts2) == 1 and next(iter(ts2))[0] == 'call' and next(iter(ts2))[2]:
+                                        ts2 = next(iter(ts2))[2][0]
+                                return ts2
+                            a_src, b_src = _base(z[2][0]), _base(z[2][1])
+                            if all(c[0] == 'field' and c[2] == 'subspaces' for c in a_src):
+                                I = ('zip', n[1], b_src)
             if I is None:
                 probs.append('receiver %s is not an element of self.subspaces' % fmt_terms(recv)[:60])
+                continue
+            if isinstance(I, tuple) and I[0] == 'zip':
+                # the zipped partner must be the components of a state parameter, used as `.1`
+                for j in range(1, len(t['args'])):
+                    aj = strip_clone(fn.arg_terms(t, j, bi))
+                    for n in aj:
+                        if n[0] == 'field' and n[2] == '1' and n[1] == I[1]:
+                            if not all(c[0] == 'field' and c[2] == 'components' for c in I[2]):
+                                probs.append('the subspaces are zipped with %s, not with the state components' % fmt_terms(I[2])[:50])
+                        elif n[0] == 'param' and b.local_ty(n[1]) in ('f64',):
+                            pass
+                        else:
+                            probs.append('argument %d is not the component zipped with its subspace' % j)
                 continue
             if I != 'iter':
                 src = P.iter_source(I)
